@@ -511,7 +511,34 @@ def run(chk):
     return chk.finish(search)
 
 
-def replay(path):
+def parse_events(strs):
+    evs = []
+    for e in strs:
+        f = e.split()
+        if f[0] == "i":
+            evs.append(("i", f[1], int(f[2]), int(f[3])))
+        elif f[0] == "u":
+            evs.append(("u", int(f[1])))
+        else:
+            evs.append((f[0],))
+    return evs
+
+
+def replay(path, mon=None):
+    """re-runs the stored history on the current tree: exit 1 if the statement is still violated"""
+    import logging
+    logging.disable(logging.CRITICAL)
     r = json.load(open(path))
-    print(json.dumps(r.get("first") or r.get("broken_theorems") or r.get("correspondence_breaks"), indent=1, default=str)[:4000])
-    return 1 if r.get("first") else 0
+    v = r.get("first")
+    if not v:
+        print(json.dumps(r.get("broken_theorems") or r.get("correspondence_breaks"), indent=1, default=str)[:4000])
+        return 0
+    inp = v["input"]
+    role, n_apps, events = inp["role"], inp["n_apps"], parse_events(inp["events"])
+    steps, _toks = run_impl(role, n_apps, events, Factory(role, n_apps))
+    res = (mon or monitor)(role, steps)
+    print("history (%s, %d applications): %s" % (role, n_apps, inp["events"]))
+    print("trace now: %s" % [s.obs for s in steps])
+    print("recorded : %s -> %s" % (v["what"], json.dumps(v["actual"], default=str)[:300]))
+    print("now      : %s" % (("VIOLATED: %s at step %d: %s" % res) if res else "the statement holds on this history"))
+    return 1 if res else 0
